@@ -367,6 +367,19 @@ class ClassParser(BaseParser):
         setter.__name__ = field.attname
         return setter
 
+    def make_property_deleter(self, field: ParserField, fdel: Callable):
+        def deleter(_obj_self: object):
+            options = self.get_instance_options(_obj_self)
+            if options.immutable or field.immutable:
+                raise exc.DeleteError(
+                    f"{self.name}: "
+                    f"Attempt to delete immutable attribute: [{repr(field.attname)}]"
+                )
+            fdel(_obj_self)
+
+        deleter.__name__ = field.attname
+        return deleter
+
     def make_deleter(self, field: ParserField, post_delattr=None):
         def deleter(_obj_self: object):
             options = self.get_instance_options(_obj_self)
@@ -422,7 +435,7 @@ class ClassParser(BaseParser):
                     setattr(self.obj, field.attname, property(
                         fget=prop.fget,
                         fset=self.make_property_setter(field, prop.fset),
-                        fdel=prop.fdel,
+                        fdel=self.make_property_deleter(field, prop.fdel) if prop.fdel else None,
                         doc=prop.__doc__,
                     ))
                 continue
